@@ -28,7 +28,7 @@ use serde::{Deserialize, Serialize};
 use vcore::{Args, Check, Report, catch, mix, pick_index};
 
 pub const KEY_FOLLOWING_EPOCH: &str = "accepted:link-to-following-epoch";
-pub const KEY_CACHE_POISON: &str = "client-cache:accepted:link-not-verified";
+pub const KEY_CACHE_POISON: &str = "client-cache:accepted-only-with-cache";
 
 // ------------------------------------------------------------------------------------------------------------------
 // tamper operations
@@ -84,6 +84,9 @@ pub enum ParentFix {
     CommitResync,
     /// … and it is re-hashed, the fork pointing to the new hash
     CommitResyncRehash,
+    /// a parent of the SAME epoch is served as if it belonged to the previous epoch (with the commitment the fork
+    /// needs; stored hash kept): the client believes an epoch boundary was crossed
+    CommitFakeBoundary,
 }
 
 #[derive(Clone, Debug, Serialize, Deserialize, PartialEq)]
@@ -417,15 +420,19 @@ fn apply_op(st: &mut Store, op: &Op, cx: &Ctx) {
             // the honest parent, served with what the fork needs
             if *parent != ParentFix::None {
                 if let Some(&p) = st.served.get(&st.certs[i].previous_hash) {
-                    let same_epoch = st.certs[p].epoch == st.certs[i].epoch;
+                    let mut same_epoch = st.certs[p].epoch == st.certs[i].epoch;
                     let pc = &mut st.certs[p];
+                    if same_epoch && *parent == ParentFix::CommitFakeBoundary && pc.epoch.0 > 0 {
+                        pc.epoch = Epoch(pc.epoch.0 - 1);
+                        same_epoch = false;
+                    }
                     if same_epoch {
                         pc.aggregate_verification_key = w.avk_key();
                         pc.metadata.protocol_parameters = w.spec.params.entity();
                     } else {
                         set_commitment(pc, &w);
                     }
-                    if *parent != ParentFix::Commit && !same_epoch {
+                    if !matches!(parent, ParentFix::Commit | ParentFix::CommitFakeBoundary) && !same_epoch {
                         pc.signed_message = pc.protocol_message.compute_hash();
                     }
                     st.touched.insert(p);
@@ -627,17 +634,27 @@ fn ref_params_of(c: &Certificate) -> (u64, u64, Option<u32>) {
 
 /// the failing clauses on the walk from `head` (empty = valid)
 fn ref_check(head: &Certificate, universe: &BTreeMap<String, Certificate>, gv: &GenesisVerifier) -> Vec<&'static str> {
+    ref_check_at(head, universe, gv).0
+}
+
+/// … and whether the FIRST failing clause concerns a certificate of the head's own epoch segment (the certificates
+/// reached from the head before an epoch boundary is crossed; a link clause is attributed to the link's target)
+fn ref_check_at(head: &Certificate, universe: &BTreeMap<String, Certificate>, gv: &GenesisVerifier) -> (Vec<&'static str>, bool) {
     let mut fails: Vec<&'static str> = vec![];
+    let mut first_in_head_segment: Option<bool> = None;
+    let mut in_segment = true;
     let mut seen: BTreeSet<String> = BTreeSet::new();
     let mut cur = head.clone();
     for _ in 0..universe.len() + 2 {
+        in_segment = in_segment && cur.epoch == head.epoch;
+        let before = fails.len();
         let true_hash = cur.try_compute_hash().unwrap_or_default();
         if cur.hash != true_hash {
             fails.push("hash-mismatch");
         }
         if !seen.insert(true_hash) {
             fails.push("loop");
-            return fails;
+            return (fails, first_in_head_segment.unwrap_or(false));
         }
         if cur.protocol_message.compute_hash() != cur.signed_message {
             fails.push("signed-message-mismatch");
@@ -650,7 +667,10 @@ fn ref_check(head: &Certificate, universe: &BTreeMap<String, Certificate>, gv: &
                 if gv.to_ed25519_verification_key().verify_strict(cur.signed_message.as_bytes(), sig).is_err() {
                     fails.push("genesis-signature-invalid");
                 }
-                return fails;
+                if first_in_head_segment.is_none() && fails.len() > before {
+                    first_in_head_segment = Some(in_segment);
+                }
+                return (fails, first_in_head_segment.unwrap_or(false));
             }
             CertificateSignature::MultiSignature(_, sig) => {
                 let p = &cur.metadata.protocol_parameters;
@@ -659,9 +679,12 @@ fn ref_check(head: &Certificate, universe: &BTreeMap<String, Certificate>, gv: &
                 if !ok {
                     fails.push("multi-signature-invalid");
                 }
+                if first_in_head_segment.is_none() && fails.len() > before {
+                    first_in_head_segment = Some(in_segment);
+                }
                 let Some(prev) = universe.get(&cur.previous_hash) else {
                     fails.push("previous-certificate-missing");
-                    return fails;
+                    return (fails, first_in_head_segment.unwrap_or(false));
                 };
                 let avk = cur.aggregate_verification_key.to_json_hex().unwrap_or_default();
                 if prev.epoch == cur.epoch {
@@ -690,12 +713,15 @@ fn ref_check(head: &Certificate, universe: &BTreeMap<String, Certificate>, gv: &
                 } else {
                     fails.push("link-epoch-gap");
                 }
+                if first_in_head_segment.is_none() && fails.len() > before {
+                    first_in_head_segment = Some(in_segment && prev.epoch == head.epoch);
+                }
                 cur = prev.clone();
             }
         }
     }
     fails.push("walk-too-long");
-    fails
+    (fails, first_in_head_segment.unwrap_or(false))
 }
 
 fn violation_key(fails: &[&'static str]) -> String {
@@ -1016,7 +1042,7 @@ fn hist_case(c: &HistCase, known: &[String]) -> Report {
             Ok(Err(e)) => (false, format!("{e:#}")),
             Err(p) => (false, format!("panic: {p}")),
         };
-        let fails = ref_check(&head, &universe, gv);
+        let (fails, first_in_head_segment) = ref_check_at(&head, &universe, gv);
         // the walk was shortened by the cache iff fewer certificates were fetched than the reference walk is long
         let cached_after = rt.block_on(cache.len());
         if acc && cached_before > 0 {
@@ -1034,13 +1060,13 @@ fn hist_case(c: &HistCase, known: &[String]) -> Report {
         if acc && !fails.is_empty() {
             // is the acceptance due to the cache? A fresh client without cache on the same provider state decides.
             let (fresh_accepts, _, _) = run_client_once(&st, &key, gv);
+            // One key for every acceptance that only happens with the cache: whatever clause fails, the root cause is that a
+            // cached hash short-cuts the verification of content the provider serves NOW (recorded per clause / position).
             let key_v = if fresh_accepts {
                 violation_key(&fails)
-            } else if fails.iter().all(|f| f.starts_with("link-")) {
-                rep.label("history:cache-only-acceptance:link");
-                KEY_CACHE_POISON.to_string()
             } else {
-                format!("client-cache:{}", violation_key(&fails))
+                rep.label(format!("history:cache-only-acceptance:{}:{}", if first_in_head_segment { "inside-head-epoch" } else { "behind-epoch-boundary" }, fails[0]));
+                KEY_CACHE_POISON.to_string()
             };
             pending.push((
                 key_v,
@@ -1108,7 +1134,7 @@ fn field_alter() -> impl Strategy<Value = FieldAlter> {
 }
 
 fn parent_fix() -> impl Strategy<Value = ParentFix> {
-    prop_oneof![Just(ParentFix::None), Just(ParentFix::Commit), Just(ParentFix::CommitResync), Just(ParentFix::CommitResyncRehash)]
+    prop_oneof![Just(ParentFix::None), Just(ParentFix::Commit), Just(ParentFix::CommitResync), Just(ParentFix::CommitResyncRehash), Just(ParentFix::CommitFakeBoundary)]
 }
 
 fn rel() -> impl Strategy<Value = Rel> {
@@ -1191,30 +1217,55 @@ fn witness_adv() -> AdvSpec {
     AdvSpec { world: WorldSpec { seed: 99, stakes: vec![500, 500], params: PSpec::new(2, 8, 1.0) }, genesis_seed: 98 }
 }
 
+fn witness_following_epoch_case() -> Case {
+    Case { chain: witness_chain(), adv: witness_adv(), ops: vec![Op::Retarget { at: 32768, rel: Rel::Next, to: 0, rehash: true, repoint: true }], head: HeadSel::Touched }
+}
+
 /// certificate B of epoch 11 is re-pointed (and re-hashed) to certificate C of epoch 12: accepted?
 fn witness_following_epoch() -> bool {
-    let c = Case { chain: witness_chain(), adv: witness_adv(), ops: vec![Op::Retarget { at: 32768, rel: Rel::Next, to: 0, rehash: true, repoint: true }], head: HeadSel::Touched };
+    let c = witness_following_epoch_case();
     let r = case_fn(&c, &[]);
     matches!(&r.outcome, vcore::Outcome::Violation { key, .. } if key == KEY_FOLLOWING_EPOCH)
 }
 
 /// honest chain verified first (cache warm), then the adversary's fork served together with a parent carrying the
 /// commitment the fork needs (stored hash kept): accepted?
-fn witness_cache_poison() -> bool {
-    let c = HistCase {
+fn witness_cache_poison_case() -> HistCase {
+    HistCase {
         chain: witness_chain(),
         adv: witness_adv(),
         steps: vec![
             Step { ops: vec![], head: HeadSel::Last },
             Step { ops: vec![Op::AdvFork { at: 65535, same_params: true, parent: ParentFix::Commit }], head: HeadSel::Touched },
         ],
-    };
+    }
+}
+
+/// development aid (never set by the registered commands): write the witness cases as replay files
+fn write_witness_replays() {
+    let root = std::env::var("VERIF_ROOT").unwrap_or_else(|_| "/verif".into());
+    let dir = std::path::Path::new(&root).join("replays").join("C03");
+    let _ = std::fs::create_dir_all(&dir);
+    let files = [
+        ("witness-link-to-following-epoch.json", "tampered-provider", KEY_FOLLOWING_EPOCH, serde_json::to_value(witness_following_epoch_case()).unwrap()),
+        ("witness-client-cache.json", "client-cache-history", KEY_CACHE_POISON, serde_json::to_value(witness_cache_poison_case()).unwrap()),
+    ];
+    for (name, section, key, case) in files {
+        let body = serde_json::json!({"property": "C03", "section": section, "seed": 0, "tier": "quick", "key": key, "what": "hand-minimised witness case", "case": case});
+        let _ = std::fs::write(dir.join(name), serde_json::to_string_pretty(&body).unwrap());
+    }
+}
+
+fn witness_cache_poison() -> bool {
+    let c = witness_cache_poison_case();
     let r = hist_case(&c, &[]);
     matches!(&r.outcome, vcore::Outcome::Violation { key, .. } if key == KEY_CACHE_POISON)
 }
 
 pub fn run(args: &Args) -> i32 {
     let mut check = Check::new("C03", "exploration", args);
+    // cases are expensive and come from a pool (little to shrink): bound the shrinking work
+    check.shrink_iters(48);
     check
         .rule(
             "honest chain (1-6 epochs, 1-3 certificates per epoch, constant or rotating signer worlds) + 0-3 provider tamper ops (+ an adversary world and key); \
@@ -1241,8 +1292,11 @@ pub fn run(args: &Args) -> i32 {
         .require_label("ref:invalid")
         .require_label("world:constant")
         .require_label("world:rotating");
+    if std::env::var("VERIF_WRITE_WITNESS_REPLAYS").is_ok() {
+        write_witness_replays();
+    }
     let t = check.tier;
-    let known: Vec<String> = [KEY_FOLLOWING_EPOCH, KEY_CACHE_POISON].iter().filter(|k| check.has_open_known(k)).map(|k| k.to_string()).collect();
+    let known: Vec<String> = [KEY_FOLLOWING_EPOCH, KEY_CACHE_POISON].iter().filter(|k| !args.strict && check.has_open_known(k)).map(|k| k.to_string()).collect();
     let pool: Vec<ChainSpec> = if check.is_replay() { vec![vcore::sample_one(&chain_strategy(2), 1)] } else { chain_pool(check.seed, t.pick(150, 5000) as usize, 6, check.threads) };
     if pool.is_empty() {
         check.inconclusive("no honest chain could be built".into());
